@@ -133,7 +133,7 @@ def launch(vh, driver, np, seed, tier, lo, hi, wdir, tag, env_extra, timeout, ex
 def run_cases(vh, driver, np, seed, tier, ncases, wdir, tag, env_extra, timeout, on_launch=None, extra_args=None, max_incidents=3):
     """Run cases [0,ncases) under np ranks, resuming after a hang/crash. Returns (rank0_cases, incidents, launches)."""
     cases, incidents, launches = [], [], []
-    cur, attempt = 0, 0
+    cur, attempt, startup_failures = 0, 0, 0
     while cur < ncases:
         res = launch(vh, driver, np, seed, tier, cur, ncases, wdir, "%s.np%d.%d" % (tag, np, attempt), env_extra, timeout, extra_args)
         attempt += 1
@@ -147,6 +147,10 @@ def run_cases(vh, driver, np, seed, tier, ncases, wdir, tag, env_extra, timeout,
             break
         # which case is open? the smallest open case over ranks
         opens = [res["ranks"][r][1] for r in res["ranks"] if res["ranks"][r][1] is not None]
+        if not opens and not c0 and not res["timed_out"] and startup_failures < 3:
+            startup_failures += 1        # mpiexec or a rank died before the first case began (start-up failure on a loaded machine): try again
+            time.sleep(2.0 * startup_failures)
+            continue
         if not opens:
             incidents.append(dict(kind="infra", np=np, rc=res["rc"], stderr=res["stderr"], timed_out=res["timed_out"]))
             break
